@@ -848,9 +848,22 @@ impl<const N: usize> Driver<N> {
             Err(e) => return Err(self.mm(Class::Lists, format!("{}/err/{}", api, placement), format!("{}(k{}) failed: {:#}", api, k, e))),
         };
         let mut got_desc: Vec<(u64, bool, Vec<u8>, Option<Meta>)> = Vec::new();
+        let whole_record = self.step % 2 == 1;
         for mut e in got {
             let ts: u64 = e.timestamp().into();
             let del = e.is_deleted();
+            if whole_record {
+                // on odd steps the entry is loaded as a whole record (Entry::load, nothing cached before), on even
+                // steps through load_data + load_meta
+                match e.load().await {
+                    Ok(rec) => {
+                        let meta = rec.meta().clone();
+                        got_desc.push((ts, del, rec.into_data().to_vec(), Some(meta)));
+                        continue;
+                    }
+                    Err(err) => return Err(self.mm(Class::Lists, format!("{}/load-err/{}", api, placement), format!("{}(k{}): Entry::load failed: {:#}", api, k, err))),
+                }
+            }
             let data = match e.load_data().await {
                 Ok(d) => d.to_vec(),
                 Err(err) => return Err(self.mm(Class::Lists, format!("{}/load_data-err/{}", api, placement), format!("{}(k{}): load_data failed: {:#}", api, k, err))),
